@@ -267,6 +267,21 @@ func c04Exec(r *vf.Run, cfg c04Cfg, c *vf.Chooser) (keys []string, whats []strin
 		return
 	}
 	tr := sess.Transcript
+	if conn.ServerTLS != nil && len(sess.CapsTLS) == 0 {
+		r.Outcome("reached/single-line-ehlo-after-starttls")
+	}
+	if conn.ServerTLS != nil {
+		r.Outcome("reached/starttls-handshake")
+	}
+	if pre != nil && len(tr) > 0 {
+		r.Outcome("reached/second-connection-of-the-client")
+	}
+	if calls > 1 && len(sess.Commits) > cfg.M {
+		r.Outcome("reached/second-send-call-committed")
+	}
+	if len(sess.Commits) == len(msgs) {
+		r.Outcome("reached/all-committed")
+	}
 	// 1. protocol monitor
 	if len(sess.Illegal) > 0 {
 		// only the first illegal event is reported: once the dialogue left the rails, what follows is a consequence
@@ -532,6 +547,7 @@ func init() {
 			r.Parallel(len(jobs), "C04 configurations", func(i int) {
 				c04RunCase(r, jobs[i].cfg, jobs[i].bound, 1)
 			})
+			r.Reached("reached/single-line-ehlo-after-starttls", "reached/starttls-handshake", "reached/second-connection-of-the-client", "reached/second-send-call-committed", "reached/all-committed")
 		},
 		Replay: func(r *vf.Run, kase json.RawMessage) {
 			var k c04Case
